@@ -117,7 +117,7 @@ Definition map_insert (k kid v : N) : M' (option N) :=
       (if in_main then ret tt
        else
          o <- getlo ;;
-         debug_check c (is_some_b o) 1064 ;;;
+         debug_check (is_some_b o) 1064 ;;;
          on_unwind (rt_carry c) (drop_val (ev e) ;;; drop_key kid)) ;;;
       drop_key kid ;;;
       ret (Some (ev e))
@@ -227,7 +227,7 @@ Definition drain_order : M' (list elem) :=
   lm <- take_order (hel t) ;;
   o <- getlo ;;
   lold <- cursor_view o ;;
-  debug_check c (match o with Some o => oit o =? olen o | None => true end) 1390 ;;;
+  debug_check (match o with Some o => oit o =? olen o | None => true end) 1390 ;;;
   ret (lold ++ lm).
 
 Definition map_drain (j : N) (forget : bool) : M' (list (N * N * N)) :=
@@ -501,9 +501,9 @@ Definition step (w : world) (t : traced) : res world out :=
   | OTryReserve s n => rmap OutB (with_slot_h w s on perm (map_reserve c true n))
   | OShrinkTo s n => rmap (fun _ => OutU) (with_slot_h w s on perm (rt_shrink_to c n))
   | OIter s variant delta => rmap OutL (with_slot w s on perm (map_iter delta))
-  | ODrain s j forget => rmap OutL (with_slot w s on perm (map_drain c j forget))
+  | ODrain s j forget => rmap OutL (with_slot w s on perm (map_drain j forget))
   | OIntoIter s j =>
-      match with_slot w s on perm (map_into_iter c j) with
+      match with_slot w s on perm (map_into_iter j) with
       | Ok l w' => Ok (OutL l) (del_slot s w')
       | Unwind p w' => Unwind p (del_slot s w')
       | Fault x => Fault x
